@@ -306,10 +306,14 @@ example : weightedSum [(1, .rv [0] [1]), (1 / 2 ^ 53, .time true 0 (2 ^ 60))] [.
     = 128 := by
   simp only [weightedSum, SpaceDist.dist, rvDist_self, timeDist_real]; norm_num
 
-/-- the reported extent of a compound is the weighted sum of its components' extents (weights ≥ 2⁻⁵²). -/
-theorem compound_extent_is_weighted_sum (w : ℝ) (h t : Space ℝ) (ht : isCList t = true) (hw : (eps : ℝ) ≤ w) :
-    maxExtent (.ccons w h t) = w * maxExtent h + maxExtent t := maxExtent_ccons w h t ht hw
-example : (eps : ℝ) ≤ 1 := by rw [eps_real]; norm_num
+/-- the reported extent of a compound is the weighted sum of its components' extents, for every positive weight (since
+bb83952a6 no lower cut-off; a zero weight drops the component, which over ℝ is the same sum). -/
+theorem compound_extent_is_weighted_sum (w : ℝ) (h t : Space ℝ) (ht : isCList t = true) (hw : 0 ≤ w) :
+    maxExtent (.ccons w h t) = w * maxExtent h + maxExtent t := by
+  rcases hw.lt_or_eq with hp | rfl
+  · exact maxExtent_ccons w h t ht hp
+  · rw [maxExtent_ccons_zero h t ht]; simp
+example : (0 : ℝ) ≤ 1 / 2 ^ 60 := by norm_num
 
 /-- **compound_metric**: for ARBITRARILY NESTED weighted compounds (and wrappers anywhere in the tree): if every
 leaf satisfies the five laws and all weights are > 0, so does the whole space.  By structural induction on `Space`. -/
@@ -318,28 +322,26 @@ theorem compound_metric (sp : Space ℝ) (h : AllLeaves (fun w => 0 < w) Laws sp
 example : AllLeaves (fun w => 0 < w) Laws (.ccons 2 (.rv [0] [1]) (.ccons 1 .so2 .cnil) : Space ℝ) :=
   ⟨by norm_num, rv_laws _ _, ⟨by norm_num, so2_laws, trivial, rfl⟩, rfl⟩
 
-/-- the same for the extent law, for weights that are `0` (the component counts neither in the distance nor in the
-extent) or `≥ 2⁻⁵²` (it counts in both).  For `0 < w < 2⁻⁵²` the law FAILS: `compound_extent_subeps_weight_fails`. -/
-theorem compound_extent (sp : Space ℝ) (h : AllLeaves (fun w => w = 0 ∨ (eps : ℝ) ≤ w) ExtentLaw sp) : ExtentLaw sp :=
-  compound_extent_aux0 sp h
-example : AllLeaves (fun w => w = 0 ∨ (eps : ℝ) ≤ w) ExtentLaw
-    (.ccons 1 (.rv [0] [1]) (.ccons (1 / 2) .so2 (.ccons 0 (.time true 0 1) .cnil)) : Space ℝ) := by
-  refine ⟨Or.inr (by rw [eps_real]; norm_num), rv_extent _ _,
-    ⟨Or.inr (by rw [eps_real]; norm_num), so2_extent, ⟨Or.inl rfl, time_extent _ _, trivial, rfl⟩, rfl⟩, rfl⟩
+/-- the same for the extent law, for EVERY non-negative weight vector (the code as it stands: guard `weights_[i] > 0`,
+bb83952a6), under any nesting: no lower cut-off is left. -/
+theorem compound_extent (sp : Space ℝ) (h : AllLeaves (fun w => 0 ≤ w) ExtentLaw sp) : ExtentLaw sp :=
+  compound_extent_aux sp h
+example : AllLeaves (fun w => 0 ≤ w) ExtentLaw
+    (.ccons 1 (.rv [0] [1]) (.ccons (1 / 2 ^ 60) .so2 (.ccons 0 (.time true 0 1) .cnil)) : Space ℝ) := by
+  refine ⟨by norm_num, rv_extent _ _, ⟨by norm_num, so2_extent, ⟨le_refl _, time_extent _ _, trivial, rfl⟩, rfl⟩, rfl⟩
 
-/-- F360: a component with a legal weight `0 < w < 2⁻⁵²` is counted by `CompoundStateSpace::distance` but dropped by
-the `weights_[i] >= epsilon` guard of `getMaximumExtent`: in `[(1, time [0,1]), (2⁻⁵³, time [0, 2⁶⁰])]` the in-bounds states
-`(0, 0)` and `(0, 2⁶⁰)` are at distance `128`, the reported extent is `1`. -/
+/-- F360 (fixed by bb83952a6; this is why): with the FORMER guard `weights_[i] >= epsilon` (`maxExtentOld`) a component with
+a legal weight `0 < w < 2⁻⁵²` was counted by `distance` but dropped from `getMaximumExtent`: in
+`[(1, time [0,1]), (2⁻⁵³, time [0, 2⁶⁰])]` the in-bounds states `(0, 0)` and `(0, 2⁶⁰)` are at distance `128`, the old extent was `1`. -/
 theorem compound_extent_subeps_weight_fails :
-    ((0 : ℝ) < 1 / 2 ^ 53 ∧ (1 / 2 ^ 53 : ℝ) < eps) ∧ maxExtent subEpsSpace = 1 ∧ ¬ ExtentLaw subEpsSpace :=
-  ⟨subEps_weight_legal, subEps_extent, subEps_extent_fails⟩
+    ((0 : ℝ) < 1 / 2 ^ 53 ∧ (1 / 2 ^ 53 : ℝ) < eps) ∧ maxExtentOld subEpsSpace = 1 ∧
+    ¬ (∀ a b, inDom subEpsSpace a → inDom subEpsSpace b → SpaceDist.dist subEpsSpace a b ≤ maxExtentOld subEpsSpace) :=
+  ⟨subEps_weight_legal, subEps_extent_old, subEps_extent_old_fails⟩
 
-/-- with the guard `weights_[i] > 0` (notes/C06-fix-F360.diff; `maxExtentFixed`) the extent law holds for EVERY
-non-negative weight vector, under any nesting: no lower cut-off is left. -/
-theorem compound_extent_repaired (sp : Space ℝ) (h : AllLeaves (fun w => 0 ≤ w) LeafExtent sp) : ExtentLawFixed sp :=
-  compound_extent_fixed_aux sp h
-example : AllLeaves (fun w => 0 ≤ w) LeafExtent subEpsSpace ∧ maxExtentFixed subEpsSpace = 129 := by
-  refine ⟨⟨by norm_num, ⟨time_extent _ _, rfl⟩, ⟨by norm_num, ⟨time_extent _ _, rfl⟩, trivial, rfl⟩, rfl⟩, subEps_extent_fixed⟩
+/-- the repair closes the witness: the extent of the same space is now `1 + 128` and the law holds. -/
+theorem compound_extent_repaired : maxExtent subEpsSpace = 129 ∧ ExtentLaw subEpsSpace :=
+  ⟨subEps_extent, compound_extent subEpsSpace
+    ⟨by norm_num, time_extent _ _, ⟨by norm_num, time_extent _ _, trivial, rfl⟩, rfl⟩⟩
 
 /-- every space built from Rⁿ, SO(2), time, discrete and torus leaves by weighted compounds (weights > 0) and
 wrappers, nested to any depth, satisfies the five laws — e.g. SE(2) = [(1, R²), (½, SO(2))]. -/
